@@ -71,8 +71,9 @@ PrefixLabelled ==
 \* never joins two components: cells with one label always lie in one component
 CompOf(p) == CHOOSE C \in comps : p \in C
 NeverJoinsComponents ==
-  \A p \in GValid(G) : out[p[1]][p[2]] > 0 =>
-     \A q \in GValid(G) : out[q[1]][q[2]] = out[p[1]][p[2]] => q \in CompOf(p)
+  LET P == {p \in GValid(G) : out[p[1]][p[2]] > 0}
+      comp == [p \in P |-> CompOf(p)]
+  IN \A p \in P, q \in P : out[q[1]][q[2]] = out[p[1]][p[2]] => comp[p] = comp[q]
 \* second pass: behind the scan position every pair of adjacent equal-valued cells is merged
 MergedBehind ==
   pass \in {"p2", "done"} =>
